@@ -25,8 +25,9 @@ Proof. exact gen_add_instr_is_add_instr. Qed.
 Print Assumptions C22_translated_add_instr_is_the_model.
 Theorem C22_applicability_lists_are_the_model :
   (forall o n, In n (fop_names o) ->
-     mem n gen_block_style_ops = is_block_style o /\ mem n gen_branching_ops = is_branching o) /\
-  forallb (fun n => existsb (fun o => mem n (fop_names o)) representative_ops) (gen_block_style_ops ++ gen_branching_ops) = true.
+     mem n gen_block_style_ops = is_block_style o /\ mem n gen_branching_ops = is_branching o /\ mem n gen_exit_ops = is_exit_op o) /\
+  forallb (fun n => existsb (fun o => mem n (fop_names o)) representative_ops)
+          (gen_block_style_ops ++ gen_branching_ops ++ gen_exit_ops) = true.
 Proof. exact (conj classification_is_the_source_lists classified_names_have_constructors). Qed.
 Print Assumptions C22_applicability_lists_are_the_model.
 
